@@ -109,6 +109,19 @@ impl<'a> Tr<'a> {
             Expr::Assign(a) => self.assign_k(&a.left, None, &a.right, env, e, k),
             Expr::Binary(b) if is_compound(&b.op) => self.assign_k(&b.left, Some(&b.op), &b.right, env, e, k),
             Expr::Macro(m) if is_skipped_macro(&m.mac) => k(self, unit()),
+            Expr::MethodCall(m) if m.method == "unwrap" && m.args.is_empty() && self.fuel && !matches!(&*m.receiver, Expr::MethodCall(r) if r.method == "try_into") => {
+                // in a fuelled function (result in `option`): `opt.unwrap()` on None leaves the function with None
+                // (None = no value: fuel exhausted, or a panic of `unwrap`)
+                self.expr_k(&m.receiver, env, None, &|tr, v| {
+                    let inner = match &v.ty {
+                        Ty::Option(t) => (**t).clone(),
+                        _ => return Err(unsupported(e, &format!("`unwrap()` on a value of type {} (only Option, in a fuelled function)", v.ty.show()))),
+                    };
+                    let x = tr.fresh("u");
+                    let rest = k(tr, Val { s: x.clone(), ty: inner })?;
+                    Ok(format!("match {} with\n| Some {} =>\n{}\n| None => None\nend", v.s, x, rest))
+                })
+            }
             Expr::MethodCall(m) if m.method == "inspect" && m.args.len() == 1 && matches!(&m.args[0], Expr::Closure(c) if c.inputs.len() == 1 && matches!(c.inputs[0], Pat::Wild(_))) => {
                 // `opt.inspect(|_| { statements })`: the statements run when `opt` is Some; the value is `opt`
                 let body: &Expr = match &m.args[0] {
@@ -1002,6 +1015,18 @@ impl<'a> Tr<'a> {
         let (root, path) = self.place(left)?;
         let var = env.get(&root).cloned().ok_or_else(|| unsupported(at, &format!("assignment to `{}` which is not a local variable", root)))?;
         let cur = self.pure(left, env, None)?;
+        if op.is_none() {
+            // `place = <call with effects / fuel>`: the value first, then the write
+            let eff = self.effects_expr(right);
+            if eff.ret || !eff.assigned.is_empty() {
+                let cty = cur.ty.clone();
+                return self.expr_k(right, env, Some(&cty), &|tr, v| {
+                    join(&v.ty, &cty).map_err(|m| unsupported(at, &m))?;
+                    let r = k(tr, unit())?;
+                    tr.write_place(&root, &path, env, &v.s, &r, at)
+                });
+            }
+        }
         let newv: String = match op {
             None => {
                 let r = self.pure(right, env, Some(&cur.ty))?;
